@@ -295,13 +295,18 @@ CHECKS = {
     "C08": dict(
         level="model_checking",
         rule="every history of <= MaxLen operations (set by name / by own field / by a twin scheme's field x 3 fields x value pool "
-             "with well- and ill-typed values, get, clear, clone, take, borrow+set(+clear)+drop, setlist, execute with own/twin scheme) "
+             "with well- and ill-typed values, get, clear, clone, take, borrow+set(+clear)+drop, setlist, execute of filters and of value "
+             "expressions parsed with the own/twin scheme) "
              "over two structurally identical schemes; each finished history is replayed step by step on real contexts comparing every "
-             "result and the final projected state. Random histories of length 50 over the rich scheme are validated by Trace_Ctx.",
+             "result and the final projected state. MC_C08v: every array and map of <= 3 elements over a pool of well- and ill-typed elements "
+             "(other primitive, same container/other element, other depth, empty) for 7 declared element types, built through every public "
+             "route (try_from_vec, try_from_iter), accepted iff homogeneous. Random histories of length 50 over the rich scheme (incl. value "
+             "expressions against twin contexts and spoiled container constructions) are validated by Trace_Ctx.",
         exhaustive=True,
         assumptions=["abs(ctx) reads the context through get_field_value/get_list_matcher"],
         stages=[
             mc("histories", "MC_C08.tla", dict(quick="MC_C08_quick.cfg", thorough="MC_C08_thorough.cfg"), replay_cmd="replay-hist"),
+            mc("construction", "MC_C08v.tla", "MC_C08v.cfg", replay_cmd="replay-hist", workers=4),
             trace("random-histories", "Trace_Ctx", ["gen-hist", "--len", "50"], 40, 1600, shards=SH),
         ],
     ),
